@@ -79,6 +79,52 @@ def corr(ctx):
                                   nontrivial=0 < p < 1, info={"site": "channels:BinaryZChannel", "config": {"p": p, "alphabet": alphabet, "dtype": str(dtype), "shape": list(shape)}},
                                   prop_ok=never and bool((x == x_before).all())))
                     ctx.count("cases_p=%g" % p, 3)
+    # ---- non-contiguous inputs (transposed / permuted / strided views): deterministic extremes exactly, support invariants and
+    #      Chernoff-bounded rates in between (no assumption on the order in which a strided tensor receives its draws)
+    def views(alphabet, dtype):
+        base = make_input((40, 60), alphabet, dtype)
+        yield "transposed", base.t()
+        yield "strided", make_input((80, 60), alphabet, dtype)[::2]
+        yield "permuted", make_input((6, 20, 20), alphabet, dtype).permute(2, 0, 1)
+        yield "column", make_input((2400, 2), alphabet, dtype)[:, 0]
+    for alphabet in ("bin", "bip"):
+        for dtype in (torch.float32, torch.int64, torch.bool):
+            if alphabet == "bip" and dtype == torch.bool:
+                continue
+            for vname, x in views(alphabet, dtype):
+                one, zero = (1, 0) if alphabet == "bin" else (1, -1)
+                xi = x.clone().to(torch.int64)
+                nx = x.numel(); n1 = int((xi == one).sum())
+                for p in (0.0, 0.3, 1.0):
+                    seedc += 1
+                    x_before = x.clone()
+                    res = {}
+                    for cname, ch in (("BinarySymmetricChannel", BinarySymmetricChannel(p)), ("BinaryErasureChannel", BinaryErasureChannel(p)), ("BinaryZChannel", BinaryZChannel(p))):
+                        torch.manual_seed(seedc)
+                        y = ch(x)
+                        yi = y.to(torch.float64).round().to(torch.int64)
+                        ok = bool((x == x_before).all()) and tuple(y.shape) == tuple(x.shape)
+                        what = {"view": vname, "p": p, "alphabet": alphabet, "dtype": str(dtype)}
+                        if cname == "BinarySymmetricChannel":
+                            flips = int((yi != xi).sum())
+                            ok = ok and set(yi.flatten().tolist()) <= {one, zero} and (flips == 0 if p == 0 else flips == nx if p == 1 else _chernoff_ok(flips, nx, p))
+                            what["flips"] = flips
+                        elif cname == "BinaryErasureChannel":
+                            er = int(((yi == -1) & (xi != -1)).sum()) if alphabet == "bip" else int((yi == -1).sum())
+                            kept = bool(((yi == xi) | (yi == -1)).all())
+                            if alphabet == "bip":
+                                # erasure symbol -1 coincides with the bipolar zero: count changed symbols among the +1 only
+                                ok = ok and kept and (er == 0 if p == 0 else er == n1 if p == 1 else _chernoff_ok(er, n1, p))
+                            else:
+                                ok = ok and kept and (er == 0 if p == 0 else er == nx if p == 1 else _chernoff_ok(er, nx, p))
+                            what["erased"] = er
+                        else:
+                            down = int(((xi == one) & (yi == zero)).sum())
+                            never = not bool(((xi == zero) & (yi != zero)).any())
+                            ok = ok and never and set(yi.flatten().tolist()) <= {one, zero} and (down == 0 if p == 0 else down == n1 if p == 1 else _chernoff_ok(down, n1, p))
+                            what["ones_to_zero"] = down; what["ones"] = n1
+                        ops.append(Op("bsc 0 0 0", "0", nontrivial=False, info={"site": "channels:%s.view" % cname, "config": what}, prop_ok=bool(ok)))
+                        ctx.count("noncontiguous_views")
     # ---- large re-seeded runs: the transition law on the regenerated draws, symbol by symbol (vectorised oracle)
     nbig = 2_000_000
     for p in (1e-3, 0.37):
